@@ -84,6 +84,27 @@ pub fn main(run_once: RunOnce) -> i32 {
             quiet_stderr();
             campaign::check(&a)
         }
+        Some("probe") => {
+            // evaluate one run index in this process (used after a crash of the batch process to
+            // find out which case kills it); prints the violations it finds, exits 0 if it survives
+            let property = args.get(2).cloned().unwrap_or_default();
+            let i: u64 = args.get(3).and_then(|s| s.parse().ok()).unwrap_or(0);
+            let seed: u64 = arg_val(&args, "--seed").and_then(|s| s.parse().ok()).unwrap_or(1);
+            let tier = match arg_val(&args, "--tier").as_deref() {
+                Some("thorough") => oracle::Tier::Thorough,
+                _ => oracle::Tier::Quick,
+            };
+            quiet_stderr();
+            let base = campaign::scratch_base();
+            let case = oracle::gen_case(&property, campaign::run_seed(seed, &property, i), tier);
+            if let Some(out) = arg_val(&args, "--write-case") {
+                let _ = std::fs::write(out, serde_json::to_string_pretty(&case).unwrap_or_default());
+            }
+            let r = oracle::evaluate(&case, &base, "probe");
+            let _ = std::fs::remove_dir_all(&base);
+            println!("probe survived: {} violations", r.violations.len());
+            0
+        }
         Some("replay") => {
             let Some(p) = args.get(2) else {
                 println!("usage: simcli replay <file>");
